@@ -319,7 +319,19 @@ def gen_piece(rng, ntracks, values, pitch_range, nbars=None, tier="quick"):
     track_len = [rng.choice([nbars, nbars, rng.randrange(0, nbars + 1)]) for _ in range(ntracks)]
     track_len[rng.randrange(ntracks)] = nbars
     grid = rng.choice([2, 4, 6, 6, 12])
+    # real music repeats itself: a bar may be a literal repeat of an earlier bar (content of every track and signature),
+    # and a piece often lives on two or three note values and velocities
+    p_repeat_bar = rng.choice([0.0, 0.0, 0.3, 0.6])
+    if rng.random() < 0.6:
+        values = rng.sample(values, min(len(values), rng.choice([1, 2, 3])))
+    vel_palette = [rng.randrange(1, 128) for _ in range(rng.choice([1, 2, 8]))]
     for k in range(nbars):
+        if k > 0 and rng.random() < p_repeat_bar:
+            src = bars[rng.randrange(len(bars))]
+            bars.append({"sig": list(src["sig"]), "tracks": [[list(n) for n in t] for t in src["tracks"]],
+                         "mode": rng.choice(["abs", "rel", "both"])})
+            sig = tuple(src["sig"])
+            continue
         if k > 0 and rng.random() < p_change:
             sig = rng.choice([x for x in palette if x != sig] or palette)
         L = bar_len(*sig)
@@ -336,7 +348,7 @@ def gen_piece(rng, ntracks, values, pitch_range, nbars=None, tier="quick"):
                     if hi_i < lo_i:
                         continue
                     on = grid * rng.randrange(lo_i, hi_i + 1)
-                    notes.append([p, on, dur, rng.randrange(1, 128)])
+                    notes.append([p, on, dur, rng.choice(vel_palette)])
                     last_end[p] = on + dur
                 notes.sort(key=lambda x: (x[1], x[0]))
             tracks.append(notes)
@@ -383,8 +395,15 @@ def tok_run_one(seed, tier, index):
     lane = "baseline" if rng.random() < 0.15 else "fault"
     nclients = 1 if (lane == "baseline" or rng.random() < 0.5) else rng.choice([2, 2, 3] if tier == "quick" else [2, 3, 4])
     clients = []
-    for _ in range(nclients):
-        piece = gen_piece(rng, cfg["ntracks"], cfg["note_values"], cfg["pitch_range"], tier=tier)
+    for ci in range(nclients):
+        if ci > 0 and rng.random() < 0.3:
+            # another stream playing (almost) the same material on the same tokeniser
+            base = clients[rng.randrange(len(clients))]["piece"]
+            piece = json.loads(json.dumps(base))
+            if rng.random() < 0.5 and len(piece["bars"]) > 1:
+                rng.shuffle(piece["bars"])
+        else:
+            piece = gen_piece(rng, cfg["ntracks"], cfg["note_values"], cfg["pitch_range"], tier=tier)
         clients.append({"piece": piece, "route": rng.choice(["R1", "R2", "R3", "R3"]), "cuts": gen_cuts(rng, piece)})
     init = {"cfg": cfg, "clients": clients}
     world = TokWorld(init)
